@@ -90,11 +90,18 @@ def z3sort(s):
 class SV:
     """A symbolic scalar: z3 term + sort tag."""
 
-    __slots__ = ("sort", "t")
+    __slots__ = ("sort", "t", "char")
 
-    def __init__(self, sort, t):
+    def __new__(cls, sort, t=None, char=False):
+        s = parse_sort(sort)
+        if isinstance(s, tuple) and s[0] == "u":
+            return Opaque(s[1], t)  # values of uninterpreted sorts are always represented as Opaque
+        return object.__new__(cls)
+
+    def __init__(self, sort, t, char=False):
         self.sort = parse_sort(sort)
         self.t = t
+        self.char = char  # a str known to have length exactly 1
 
     def __repr__(self):
         return f"SV<{sort_name(self.sort)}:{self.t}>"
@@ -107,6 +114,13 @@ def fresh(sort, base="v") -> SV:
 
 def lift(v, sort=None):
     """Concrete python scalar or SV -> z3 term of ``sort`` (or its natural sort)."""
+    if isinstance(v, Opaque):
+        if sort is None or parse_sort(sort) == ("u", v.kind):
+            return v.t
+        sort = parse_sort(sort)
+        if isinstance(sort, tuple) and sort[0] == "opt" and sort[1] == ("u", v.kind):
+            return z3sort(sort).some(v.t)
+        raise TypeError(f"cannot lift {v} to {sort}")
     if isinstance(v, SV):
         if sort is None or parse_sort(sort) == v.sort:
             return v.t
@@ -149,6 +163,8 @@ def lift(v, sort=None):
 def natural_sort(v):
     if isinstance(v, SV):
         return v.sort
+    if isinstance(v, Opaque):
+        return ("u", v.kind)
     if isinstance(v, bool):
         return "bool"
     if isinstance(v, int):
@@ -300,6 +316,19 @@ class SDict(HeapObj):
 
     def __repr__(self):
         return f"SDict<{sort_name(self.ksort)}->{sort_name(self.vsort)} n={self.n}>"
+
+
+class SSet(HeapObj):
+    """Symbolic set of scalars: membership array."""
+
+    def __init__(self, esort, has=None, base="set"):
+        self.esort = parse_sort(esort)
+        self.has = has if has is not None else z3.Array(fresh_name(base) + ".has", z3sort(self.esort), z3.BoolSort())
+
+    def clone(self):
+        c = SSet(self.esort, self.has)
+        c.frozen = self.frozen
+        return c
 
 
 class Obj(HeapObj):
